@@ -164,9 +164,14 @@ func runsFor(prop, tier string) []run {
 		// the third replica was part of the volume, fell behind (it misses the last write and an add-time snapshot)
 		diverged := append(append([]string{}, rw3...), "W:0", "MonFail:2", "Restart:2", "W:0")
 		return []run{
-			{"rebuild-empty-joiner-writes-in-every-gap", mk(withData, []string{"RB", "Step", "W0", "R"}, 5, 0, 1, 3), pick(28, 30), minutes(pickf(1.5, 8))},
-			{"rebuild-diverged-joiner-writes-in-every-gap", mk(diverged, []string{"RB", "Step", "W0"}, 4, 0, 0, 5), pick(28, 32), minutes(pickf(1.2, 8))},
-			{"rebuild-killed-at-every-gate-then-retried", mk(withData, []string{"RB", "Step", "Kill", "MonFail", "W0"}, 3, 1, 0, 4), pick(30, 60), minutes(pickf(1.5, 10))},
+			{"rebuild-empty-joiner-writes-in-every-gap", mk(withData, []string{"RB", "Step", "W0", "R"}, 5, 0, 1, 3), pick(28, 30), minutes(pickf(1.1, 8))},
+			{"rebuild-diverged-joiner-writes-in-every-gap", mk(diverged, []string{"RB", "Step", "W0"}, 4, 0, 0, 5), pick(28, 32), minutes(pickf(0.6, 8))},
+			{"rebuild-full-volume-scattered-overwrites", func() eb.Cfg {
+				c := mk(append(append([]string{}, rw2...), "W:0", "W:0", "W:0", "W:0"), []string{"RB", "Step", "Wb"}, 6, 0, 0, 3)
+				c.WBlocks = []int{0, 2}
+				return c
+			}(), pick(26, 30), minutes(pickf(1.2, 8))},
+			{"rebuild-killed-at-every-gate-then-retried", mk(withData, []string{"RB", "Step", "Kill", "MonFail", "W0"}, 3, 1, 0, 4), pick(30, 60), minutes(pickf(1.0, 10))},
 		}
 	case "C19":
 		src2 := []string{"Reg:0", "Start:0", "W:0", "Snap:0", "W:0", "Snap:0", "W:0"}
